@@ -37,7 +37,7 @@ def vh_or_isolate(args, what):
     if rc == 0:
         return
     log("[isolate] %s ended with status %s; repeating it case by case in child processes" % (what, rc))
-    rc2, out2, _ = run([VH] + [str(a) for a in args] + ["--isolate", 1], 14400)
+    rc2, out2, _ = run([VH] + [str(a) for a in args] + ["--isolate", "1"], 14400)
     if rc2 != 0:
         raise ToolError("vh %s exited %d even in isolation:\n%s" % (args[0], rc2, out2[-2000:]))
 
@@ -147,7 +147,7 @@ def mc_deflate(c, wd):
            invariants=["Total", "Verdicts", "ProperPrefixOfValid", "ReserialiseIsIdentity", "Replay"],
            properties=["Terminates"], must_cover=["Next"], timeout=3000, replay_out=cat)
     c.add_model(r, "DEFLATE reader grammar: every production, every way it can fail, end of input inside every "
-                   "field (all byte prefixes of 31 catalogue inputs)")
+                   "field (all byte prefixes of the catalogue inputs)")
     if r["replays"] == 0:
         raise ToolError("MC_Deflate printed no catalogue")
     return r
